@@ -57,8 +57,9 @@ Pairs   == Keys \X Vals
 Indexes == (0 - (N + 1))..N                 \* Python subscripts tried, both signs, some out of range
 Slices  == {<<0, 1>>, <<1, 3>>, <<0, N>>, <<2, 2>>}     \* s[lo:hi], non-negative bounds, clamped like Python
 
-VARIABLES S, M, act, steps, done
-vars == <<S, M, act, steps, done>>
+VARIABLES S, M, act, steps, done,
+          R          \* the set returned by a set-valued call, kept as a SECOND object: <<>> (none) or <<contents>>
+vars == <<S, M, act, steps, done, R>>
 
 None == "None"
 \* pos: for the map writes, the 1-based position written / removed (0 otherwise); not an observable of one
@@ -118,22 +119,25 @@ MapOperands(m) == IF FullMapOps THEN SmallMaps \cup Variants(m) ELSE Variants(m)
 NewArgs == IF Kind = "map" THEN PairSeqs(MaxNew) ELSE {}     \* pair lists given to the constructor (constant)
 
 ----------------------------------------------------------------------------
-Init == /\ S = {} /\ M = <<>> /\ act = A("init", None, None, "") /\ steps = 0 /\ done = FALSE
+Init == /\ S = {} /\ M = <<>> /\ act = A("init", None, None, "") /\ steps = 0 /\ done = FALSE /\ R = <<>>
 
 Mut(S2, M2, a) ==
     /\ ~done /\ steps < MaxSteps
-    /\ S' = S2 /\ M' = M2 /\ act' = a /\ steps' = steps + 1 /\ done' = FALSE
+    /\ S' = S2 /\ M' = M2 /\ act' = a /\ steps' = steps + 1 /\ done' = FALSE /\ R' = R
 
+ObsEnabled == IF Interleave THEN steps < MaxSteps ELSE steps \in ObserveAt
 Obs(a) ==
-    /\ ~done /\ (IF Interleave THEN steps < MaxSteps ELSE steps \in ObserveAt)
-    /\ UNCHANGED <<S, M>> /\ act' = a
+    /\ ~done /\ ObsEnabled
+    /\ UNCHANGED <<S, M, R>> /\ act' = a
     /\ steps' = IF Interleave THEN steps + 1 ELSE steps
     /\ done' = ~Interleave
 
 IsSet == Kind = "set"
 IsMap == Kind = "map"
 \* guards of the actions (first conjunct: one TLC run per data type; nothing follows a terminal observer)
-SetOp == IsSet /\ ~done
+SetOp == IsSet /\ ~done /\ R = <<>>
+\* once a set-valued call has handed out a second object only the aliasing probes below are offered
+ROp   == IsSet /\ ~done /\ R # <<>>
 MapOp == IsMap /\ ~done
 
 (* ---- SortedSet mutators ---- *)
@@ -179,6 +183,34 @@ SGt(T)       == SetOp /\ Obs(A("gt", T, Proper(T, S), ""))
 SEq(T)       == SetOp /\ Obs(A("eq", T, S = T, ""))
 SNe(T)       == SetOp /\ Obs(A("ne", T, S # T, ""))
 
+(* ---- the result of a set-valued call is a NEW set ---- *)
+\* copy(), the zero-operand union() / intersection() / difference(), and the one-operand calls with the empty
+\* set and with the receiver's own contents all return a set R that is a second object: changing R leaves S
+\* alone (SMutR), changing S leaves R alone (SMutS).  Both probes end the behaviour.
+ZeroOps == {"copy", "union0", "intersection0", "difference0"}
+OneOps  == {"union", "intersection", "difference", "symmetric_difference"}
+Derived(op, T) == CASE op \in ZeroOps -> S
+                    [] op = "union" -> Union(S, T)
+                    [] op = "intersection" -> Inter(S, T)
+                    [] op = "difference" -> Diff(S, T)
+                    [] op = "symmetric_difference" -> SymDiff(S, T)
+DeriveChoices == {<<op, {}>> : op \in ZeroOps} \cup {<<op, T>> : op \in OneOps, T \in {{}, S}}
+SDerive == SetOp /\ ObsEnabled /\ \E c \in DeriveChoices :
+              /\ UNCHANGED <<S, M>> /\ R' = <<Derived(c[1], c[2])>>
+              /\ act' = A("derive", c, Derived(c[1], c[2]), "")
+              /\ steps' = (IF Interleave THEN steps + 1 ELSE steps) /\ done' = FALSE
+
+Probes == {<<"add", 1>>, <<"clear", 0>>, <<"pop", 0>>}          \* one of them always changes the contents
+Apply(X, m) == CASE m[1] = "add" -> X \cup {m[2]}
+                 [] m[1] = "clear" -> {}
+                 [] m[1] = "pop" -> IF X = {} THEN X ELSE X \ {Max(X)}
+ProbeAct(name, X, m) == IF m[1] = "pop" THEN (IF X = {} THEN A(name, m, None, "KeyError") ELSE A(name, m, Max(X), ""))
+                                        ELSE A(name, m, None, "")
+SMutR(m) == ROp /\ UNCHANGED <<S, M, steps>> /\ R' = <<Apply(R[1], m)>>                \* result.add / clear / pop
+                /\ act' = ProbeAct("mut_result", R[1], m) /\ done' = TRUE
+SMutS(m) == ROp /\ UNCHANGED <<M, R, steps>> /\ S' = Apply(S, m)                       \* s.add / clear / pop
+                /\ act' = ProbeAct("mut_original", S, m) /\ done' = TRUE
+
 (* ---- OrderedMap mutators ---- *)
 MNew(ps)      == MapOp /\ steps = 0 /\ Mut(S, Build(<<>>, ps), A("new", ps, None, ""))     \* OrderedMap(pairs)
 MSetItem(k, v) == MapOp /\ Mut(S, Insert(M, k, v), AP("setitem", <<k, v>>, None, "", Index(Insert(M, k, v), k)))
@@ -206,6 +238,7 @@ SetNext ==
     \/ \E T \in Operands : SNew(T) \/ SUpdate(T) \/ SIOr(T) \/ SIAnd(T) \/ SISub(T) \/ SIXor(T)
     \/ \E e \in Elems : SAdd(e) \/ SRemove(e) \/ SContains(e)
     \/ SPop \/ SClear \/ SLen \/ SIter \/ SReversed \/ SCopy
+    \/ SDerive \/ \E m \in Probes : SMutR(m) \/ SMutS(m)
     \/ \E i \in Indexes : SDelItem(i) \/ SGetItem(i)
     \/ \E sl \in Slices : SDelSlice(sl) \/ SGetSlice(sl)
     \/ \E T \in Operands : \/ SUnion(T) \/ SInter(T) \/ SDiff(T) \/ SRDiff(T) \/ SSymDiff(T)
@@ -228,6 +261,7 @@ Spec == Init /\ [][Next]_vars
 TypeOK == /\ S \subseteq Elems /\ steps \in 0..MaxSteps /\ done \in BOOLEAN
           /\ M \in Seq(Pairs) /\ Len(M) <= N
           /\ act.exc \in {"", "KeyError", "IndexError"}
+          /\ Len(R) <= 1 /\ (R # <<>> => R[1] \subseteq Elems) /\ (IsMap => R = <<>>)
 
 \* iteration is strictly ascending, duplicate free, and enumerates exactly S; len = cardinality
 IterationSorted ==
@@ -269,6 +303,11 @@ SetResults ==
     /\ (act.name = "clear") => S = {}
     /\ (IsSet /\ act.name = "len") => act.res = Cardinality(S)
     /\ (IsSet /\ act.name = "getitem" /\ act.exc = "") => act.res \in S
+    /\ (act.name = "derive") => (R = <<act.res>> /\ act.res = Derived(act.arg[1], act.arg[2]))
+    /\ (act.name = "derive" /\ act.arg[1] \in ZeroOps) => R[1] = S
+    /\ (act.name \in {"mut_result", "mut_original"}) => (R # <<>> /\ done)
+    /\ (act.name = "mut_result" /\ act.arg[1] = "clear") => R[1] = {}
+    /\ (act.name = "mut_original" /\ act.arg[1] = "clear") => S = {}
 
 MapWellFormed ==
     /\ DistinctKeys(M)
@@ -296,7 +335,7 @@ MapOrderStable ==
              /\ (Index(M, k) = 0 => Index(M', k) = Len(M) + 1)
         /\ (IsMap /\ act'.name = "delitem") => M' = Others(M, act'.arg)
         /\ (act'.name = "popitem" /\ act'.exc = "") => M = Append(M', act'.res)
-        /\ done' => (S' = S /\ M' = M)
+        /\ (done' /\ act'.name # "mut_original") => (S' = S /\ M' = M)
       ]_vars
 
 Invariants == TypeOK /\ IterationSorted /\ SetAlgebra /\ SetResults /\ MapWellFormed /\ MapResults
@@ -308,5 +347,9 @@ Witness_PopLeavesSmaller == ~(act.name = "pop" /\ act.exc = "" /\ Cardinality(S)
 Witness_XorOverlap       == ~(act.name = "ixor" /\ S # {} /\ act.arg \ S # {} /\ ~(S \subseteq act.arg))
 Witness_OverwriteNotLast == ~(IsMap /\ act.name = "setitem" /\ act.pos < Len(M) /\ steps >= 3)
 Witness_DeleteNotLast    == ~(IsMap /\ act.name = "delitem" /\ act.exc = "" /\ act.pos <= Len(M) /\ Len(M) >= 2)
+Witness_ResultClearedOriginalKept == ~(act.name = "mut_result" /\ act.arg[1] = "clear" /\ R[1] = {} /\ Cardinality(S) >= 2
+                                        /\ steps >= 2)
+Witness_OriginalClearedResultKept == ~(act.name = "mut_original" /\ act.arg[1] = "clear" /\ S = {} /\ R # <<>>
+                                        /\ Cardinality(R[1]) >= 2)
 Witness_PopItemEmpty     == ~(act.name = "popitem" /\ act.exc = "KeyError" /\ steps >= 2)
 =============================================================================
